@@ -35,7 +35,10 @@ type command struct {
 	search bool
 	// This counter indicates the number of results that still need to be produced.
 	ctr *int64
-	// This channel is used to signal that the counter was modified
+	// This channel is used to signal that the command has been completed. A worker sends on it
+	// exactly once per command, after its last write to results, and the caller receives
+	// exactly one notification per command it sent: when the caller returns, no worker is
+	// left blocked on this channel.
 	ctrChanged chan<- struct{}
 	// This is the index we evaluate our function at, when not searching
 	i int
@@ -48,7 +51,10 @@ type command struct {
 //
 // We need to keep searching for successful queries of f while *ctr > 0.
 // When we find a successful result, we decrement *ctr.
-func workerSearch(results []interface{}, ctrChanged chan<- struct{}, f func(int) interface{}, ctr *int64) {
+//
+// The caller of workerSearch signals completion of the command once we return,
+// i.e. after our last write to results.
+func workerSearch(results []interface{}, f func(int) interface{}, ctr *int64) {
 	yield("workerSearch.beforeLoad")
 	for atomic.LoadInt64(ctr) > 0 {
 		yield("workerSearch.beforeEval")
@@ -63,8 +69,6 @@ func workerSearch(results []interface{}, ctrChanged chan<- struct{}, f func(int)
 		if i >= 0 {
 			results[i] = res
 		}
-		yield("workerSearch.beforeNotify")
-		ctrChanged <- struct{}{}
 		yield("workerSearch.beforeLoad")
 	}
 }
@@ -75,14 +79,12 @@ func worker(commands <-chan command) {
 	for c := range commands {
 		yield("worker.gotCmd")
 		if c.search {
-			workerSearch(c.results, c.ctrChanged, c.f, c.ctr)
+			workerSearch(c.results, c.f, c.ctr)
 		} else {
 			c.results[c.i] = c.f(c.i)
-			yield("worker.beforeDec")
-			atomic.AddInt64(c.ctr, -1)
-			yield("worker.beforeNotify")
-			c.ctrChanged <- struct{}{}
 		}
+		yield("worker.beforeNotify")
+		c.ctrChanged <- struct{}{}
 		yield("worker.idle")
 	}
 }
@@ -155,7 +157,10 @@ func (p *Pool) Search(count int, f func() interface{}) []interface{} {
 		f:          func(i int) interface{} { return f() },
 		results:    results,
 	}
-	cmdI := 0
+	// Every command is acknowledged exactly once, when the worker has left the search:
+	// we return only after all of them have been, so all results are written
+	// and every worker is listening for commands again.
+	cmdI, done := 0, 0
 	for cmdI < p.workerCount {
 		yield("Search.beforeSelect")
 		select {
@@ -163,14 +168,14 @@ func (p *Pool) Search(count int, f func() interface{}) []interface{} {
 			cmdI++
 			yield("Search.sent")
 		case <-ctrChanged:
+			done++
 			yield("Search.notified")
 		}
 	}
-	yield("Search.beforeLoad")
-	for atomic.LoadInt64(&ctr) > 0 {
+	for done < p.workerCount {
 		yield("Search.beforeRecv")
 		<-ctrChanged
-		yield("Search.beforeLoad")
+		done++
 	}
 	yield("Search.return")
 
@@ -187,14 +192,14 @@ func (p *Pool) Parallelize(count int, f func(int) interface{}) []interface{} {
 
 	results := make([]interface{}, count)
 
-	ctr := int64(count)
 	ctrChanged := make(chan struct{})
-	cmdI := 0
+	// Every command is acknowledged exactly once, after its result has been written:
+	// we return only after receiving as many notifications as we sent commands.
+	cmdI, done := 0, 0
 	for cmdI < count {
 		cmd := command{
 			search:     false,
 			i:          cmdI,
-			ctr:        &ctr,
 			ctrChanged: ctrChanged,
 			f:          f,
 			results:    results,
@@ -208,14 +213,14 @@ func (p *Pool) Parallelize(count int, f func(int) interface{}) []interface{} {
 			cmdI++
 			yield("Parallelize.sent")
 		case <-ctrChanged:
+			done++
 			yield("Parallelize.notified")
 		}
 	}
-	yield("Parallelize.beforeLoad")
-	for atomic.LoadInt64(&ctr) > 0 {
+	for done < count {
 		yield("Parallelize.beforeRecv")
 		<-ctrChanged
-		yield("Parallelize.beforeLoad")
+		done++
 	}
 	yield("Parallelize.return")
 
